@@ -885,9 +885,9 @@ class Ref:
             for k in args:
                 hash(k)
             return {k: v for k, v in o.items() if not any(k == t for t in args)}
-        if is_iterable(o) and len(args) in (1, 2) and all(is_int(t) for t in args):
-            pos = args[0]
-            count = args[1] if len(args) == 2 else 1
+        if is_iterable(o) and len(args) in (1, 2) and all(isinstance(t, int) for t in args):   # (bool is an int)
+            pos = int(args[0])
+            count = int(args[1]) if len(args) == 2 else 1
             hi = pos + count if count >= 0 else float('inf')
             return (x for i, x in enumerate(it(o)) if not pos <= i < hi)
         bad_receiver(o)
